@@ -80,6 +80,10 @@ pub fn split<T: Copy>(
             if n_splits == 0 {
                 return Err(OpError::InvalidValue("num_outputs must be > 0"));
             }
+            if axis_size == 0 {
+                // Splitting an empty axis into equal parts yields empty parts.
+                return Ok((0..n_splits).map(|_| input.to_tensor_in(pool)).collect());
+            }
             if n_splits > axis_size {
                 return Err(OpError::InvalidValue("num_outputs exceeds dim size"));
             }
